@@ -27,7 +27,9 @@ CONSTANTS
     BoolArgs,     \* set of bit sequences for Extend<bool>
     PosArgs,      \* set of strictly increasing position lists for Extend<usize> (relative to len - Back)
     Back,         \* positions in PosArgs are offset by Max(0, len - Back)
-    AsFoundSetBits \* TRUE reproduces the counting defect repaired by the "fix:" commit
+    AsFoundSetBits, \* TRUE reproduces the counting defect repaired by the "fix:" commit
+    PosCount       \* "per_position": the counter grows once per newly set position (code);
+                   \* "per_item": once per list item (a seeded change: wrong for repeated positions)
 
 VARIABLES bits, ones, hist
 
@@ -80,14 +82,18 @@ ExtendBools(bs) ==
     /\ ones' = ones + OnesOf(bs)
     /\ hist' = Append(hist, Ev("extend_bools", [bits |-> bs]))
 
-\* Extend<usize>: each position zero-extends the vector if needed, then sets the bit
+\* Extend<usize>: each position zero-extends the vector if needed, then sets the bit; the list
+\* may repeat positions and come in any order
 ExtendPositions(rel) ==
     LET off == MaxI(0, Len(bits) - Back)
         ps == [t \in 1..Len(rel) |-> rel[t] + off]
         B2 == MutExtendPositions(bits, ps)
-    IN  /\ CanStep /\ MutExtendPositionsOk(ps)
+        fresh(p) == p >= Len(bits) \/ bits[p + 1] = 0
+    IN  /\ CanStep /\ PositionsDefined(ps)
         /\ bits' = B2
-        /\ ones' = ones + Cardinality({t \in 1..Len(ps) : ps[t] >= Len(bits) \/ bits[ps[t] + 1] = 0})
+        /\ ones' = ones + (IF PosCount = "per_position"
+                           THEN Cardinality({p \in {ps[t] : t \in 1..Len(ps)} : fresh(p)})
+                           ELSE Cardinality({t \in 1..Len(ps) : fresh(ps[t])}))
         /\ hist' = Append(hist, Ev("extend_positions", [pos |-> ps]))
 
 Next ==
